@@ -126,7 +126,7 @@ CLAIMED = {
              "its record layout, the type the comparator bound for T reads; comparators must not return a narrowed/overflowing difference (int "
              "differences accepted only for keys public guards keep non-negative); a refused insertion releases the new source and returns the "
              "error; validation precedes registration; m_mod_src_len's type parameter must influence the result and internal sources are skipped; "
-             "registry removal only for (RM, stop) and on every path of stop(); an accepted source is never released while in its set; task deregistration always refuses; same-topic/same-flags subscription updates in place (regex released), a replaced subscription is removed with its key, the map is keyed by the subscription own topic.",
+             "registry removal only for (RM, stop) and on every path of stop(); an accepted source is never released while in its set; task deregistration always refuses; same-topic/same-flags subscription updates in place (regex released), a replaced subscription is removed with its key, the map is keyed by the subscription own topic; library-internal sources (token-bucket refill, batch timeout) have a key space of their own: the kind comparator never equates an internal with a user source nor two internal ones with different userptr, user deregistration builds a user key, the library removes its own source through an internal key with the registered userptr.",
         tech="type/record-layout compatibility between call sites and function-pointer-bound comparators, implicit-cast inspection, path enumeration, def-use",
         ref="DESIGN.md §4 C09, A.6"),
     "C14": dict(
